@@ -737,3 +737,20 @@ Section Runs.
   Definition max_result (posterior_mean : list T) (mnodes : list nat) : result N :=
     mkResult posterior_mean None None None mnodes.
 End Runs.
+
+(** harness instance of the discrete pipeline: doubles, numpy's pairwise sum, np.exp tabulated *)
+Definition tab_exp (tab : list (float * float)) (x : float) : float :=
+  match find (fun e => feqb (fst e) x) tab with Some e => snd e | None => nan end.
+Definition zspace (lg : bool) : space := if lg then LogGrid else LinGrid.
+Definition run_discrete (tab : list (float * float)) (lg : bool) (times node_times : list float)
+    (grid : list (option (list float))) :=
+  let sp := zspace lg in
+  let std := map (option_map (standardize FNum sp)) grid in
+  let post := io_posterior FNum (np_sum FNum) (tab_exp tab) sp grid in
+  (std, post,
+   match post with
+   | Some p => let r := io_result FNum (np_sum FNum) times node_times p [] in
+               (r_mean r, opt_list (r_var r))
+   | None => ([], [])
+   end).
+Definition run_np_sum (l : list float) : float := np_sum FNum l.
